@@ -51,6 +51,8 @@ namespace
             if (ni == 2) for (int a : iports) for (int b : iports) choices.push_back({a, b});
             if (ni == 3 && k == ITE) for (int c : bports) for (int a : iports) for (int b : iports) if (a != b) choices.push_back({c, a, b});
             if (ni == 3 && k == F3) for (int a : iports) for (int b : iports) for (int c : iports) if (a <= b) choices.push_back({a, b, c});
+            // three-element structural source: the first two (adjacent) elements from ONE producer, the third from another
+            if (ni == 3 && k == SUM3) for (int a : iports) for (int c : iports) if (a != c) choices.push_back({a, a, c});
             for (auto &ch : choices)
             {
                 if ((k == NEST || k == INL))
@@ -293,7 +295,7 @@ namespace
         const bool th = ctx.thorough();
         Space sp;
         sp.max_nodes = th ? 4 : 3;
-        sp.kinds = {SRC, BSRC, F1, F2, ACC, SUML, SUMB, ITE, NEST};
+        sp.kinds = {SRC, BSRC, F1, F2, ACC, SUML, SUMB, SUM3, ITE, NEST};
         sp.cycles = 3;
         sp.max_sources = 2;
         std::uint64_t programs = 0, orders = 0, shared_seen = 0, unshared_seen = 0;
@@ -472,7 +474,7 @@ void verif_enumerate(verif::Ctx &ctx)
     const bool th = ctx.thorough();
     Space sp;
     sp.max_nodes = th ? 5 : 4;
-    sp.kinds = {SRC, BSRC, F1, F2, F3, ACC, SUML, SUMB, ITE, NEST, INL};
+    sp.kinds = {SRC, BSRC, F1, F2, F3, ACC, SUML, SUMB, SUM3, ITE, NEST, INL};
     sp.cycles = 3;
     sp.max_sources = th ? 3 : 2;
     std::uint64_t programs = 0, orders = 0;
